@@ -337,7 +337,8 @@ def _semantic(ck, ctx):
                     ok = _eq(got, want) and type(got) is type(want) and not dumps
                     detail = "" if ok else f"run() returns {got!r}, the formatter {want!r}"[:400]
                     gj, _d = run_tail(ctx, copy.deepcopy(flat), group_by_type=grouped, output_mode=mode, json_dump=True)
-                    if ok and not (isinstance(gj, tuple) and gj and gj[0] == "json.dumps" and _eq(gj[1], want)):
+                    from ..objabs import abstract_json_dumps
+                    if ok and not _eq(gj, abstract_json_dumps(want)):
                         ok, detail = False, f"json_dump=True does not return json.dumps of the same object: {gj!r}"[:300]
                 except PyRaise as pr:
                     ok, detail = False, f"raises {type(pr.exc).__name__}: {pr.exc}"
